@@ -37,15 +37,20 @@ const (
 	kX
 	c15NKinds
 	kK = c15NKinds // selector pseudo kind (bit in the sets only)
+	// auxiliary kinds, used by the template families only (parameters that are not pointer-like,
+	// and a []byte result)
+	kW = c15NKinds + 1 // w uintptr
+	kZ = c15NKinds + 2 // z string
+	kB = c15NKinds + 3 // bs []byte (result only)
 )
 
-var c15Var = [...]string{"p", "q", "pp", "s", "ns", "m", "c", "f", "a", "i", "u", "x"}
+var c15Var = [...]string{"p", "q", "pp", "s", "ns", "m", "c", "f", "a", "i", "u", "x", "k", "w", "z", "bs"}
 
 // § is replaced by "" in package lib and by "lib." in package client
-var c15Type = [...]string{"*§T", "§NP", "**§T", "[]int", "§NS", "map[int]*§T", "chan *§T", "func() *§T", "any", "§Iface", "unsafe.Pointer", "X"}
+var c15Type = [...]string{"*§T", "§NP", "**§T", "[]int", "§NS", "map[int]*§T", "chan *§T", "func() *§T", "any", "§Iface", "unsafe.Pointer", "X", "int", "uintptr", "string", "[]byte"}
 
 // a fresh non-nil value per kind
-var c15Fresh = [...]string{"&§T{}", "§NP(&§T{})", "new(*§T)", "[]int{}", "§NS{}", "map[int]*§T{}", "", "func() *§T { return nil }", "&§T{}", "&§T{}", "unsafe.Pointer(&§T{})", "X(&§T{})"}
+var c15Fresh = [...]string{"&§T{}", "§NP(&§T{})", "new(*§T)", "[]int{}", "§NS{}", "map[int]*§T{}", "", "func() *§T { return nil }", "&§T{}", "&§T{}", "unsafe.Pointer(&§T{})", "X(&§T{})", "", "", "", ""}
 
 func c15IsIface(k int) bool { return k == kA || k == kI }
 
@@ -371,12 +376,29 @@ type c15Spec struct {
 	Shape int      `json:"shape"` // 0 plain, 1 named results + bare return, 2 +defer sets result 0 to nil, 3 +defer replaces a nil result 0, 4 +defer recover()
 	Pkg   string   `json:"pkg"`   // lib | client
 	Name  string   `json:"name"`  // function name (F<n>, L<n>)
+	Raw   *c15Raw  `json:"raw,omitempty"`
+}
+
+// c15Raw: a function of one of the template families (loops, package-level objects, conversions
+// from operands that are not pointer-like, refinements inside return blocks). The body is given
+// as text; parameters are still one variable per kind.
+type c15Raw struct {
+	Family   string   `json:"family"`
+	ID       string   `json:"id"` // identifies the member of the family, no spaces
+	Params   []int    `json:"params"`
+	KMax     int      `json:"kmax"` // > 0: the function has the int parameter k, run with 0..KMax
+	Glob     bool     `json:"glob,omitempty"`
+	ResTypes []string `json:"restypes,omitempty"` // result types when they are not the types of the kinds in Res
+	Body     string   `json:"body"`
 }
 
 func (s c15Spec) Key() string {
 	var r []string
 	for _, k := range s.Res {
 		r = append(r, c15Var[k])
+	}
+	if s.Raw != nil {
+		return fmt.Sprintf("family=%s|res=%s|pkg=%s|%s", s.Raw.Family, strings.Join(r, ","), s.Pkg, s.Raw.ID)
 	}
 	return fmt.Sprintf("res=%s|shape=%d|pkg=%s|body=%s", strings.Join(r, ","), s.Shape, s.Pkg, strings.Join(s.Ops, "/"))
 }
@@ -510,11 +532,33 @@ type c15Fn struct {
 	Mut      int
 	NObs     int // number of observed comparisons in the body
 	CallTier int // pool functions: level of the statement that calls it
+	KMax     int // largest value of the selector k
 	Calls    []string
 }
 
 func c15Compile(sp c15Spec) (*c15Fn, error) {
 	fn := &c15Fn{Spec: sp}
+	if len(sp.Res) == 0 || len(sp.Res) > 2 {
+		return nil, fmt.Errorf("bad result count")
+	}
+	if r := sp.Raw; r != nil {
+		fn.Params = r.Params
+		fn.UsesK = r.KMax > 0
+		fn.KMax = r.KMax
+		fn.Glob = r.Glob
+		for _, k := range r.Params {
+			if k == kX {
+				fn.Generic = true
+			}
+		}
+		for _, k := range sp.Res {
+			if k == kX {
+				fn.Generic = true
+			}
+		}
+		return fn, nil
+	}
+	fn.KMax = len(sp.Ops)
 	for _, n := range sp.Ops {
 		o := c15OpByName[n]
 		if o == nil {
@@ -617,7 +661,11 @@ func (fn *c15Fn) Source(obsBase int) (src string, obsLines []int) {
 			if named {
 				str += c15Var[k] + " "
 			}
-			str += c15Type[k]
+			if sp.Raw != nil && len(sp.Raw.ResTypes) > j {
+				str += sp.Raw.ResTypes[j]
+			} else {
+				str += c15Type[k]
+			}
 		}
 		return str + ")"
 	}
@@ -642,6 +690,14 @@ func (fn *c15Fn) Source(obsBase int) (src string, obsLines []int) {
 	selfInst := self
 	if fn.Generic {
 		selfInst = self + "[X]" // X may not be inferable from the arguments
+	}
+	if sp.Raw != nil {
+		b.WriteString(sig(sp.Name, false) + " {\n")
+		for _, line := range strings.Split(strings.TrimRight(sp.Raw.Body, "\n"), "\n") {
+			b.WriteString("\t" + line + "\n")
+		}
+		b.WriteString("}\n")
+		return c15Q(b.String(), sp.Pkg), nil
 	}
 	b.WriteString(sig(sp.Name, named) + " {\n")
 	for _, k := range fn.Locals {
@@ -712,6 +768,7 @@ type c15Bounds struct {
 	ResSingle  []int // single result kinds
 	ResPairs   [][2]int
 	ShapesUpTo int // bodies of at most this many statements get the named-result/defer shapes 1..4
+	Families   bool
 }
 
 // c15Relevant: may statement o be placed in front of a suffix whose live set is `live`?
@@ -758,7 +815,7 @@ func c15Enumerate(b c15Bounds, emit func(sp c15Spec) bool) {
 			phases = append(phases, phase{w - 1, true})
 		}
 	}
-	for _, ph := range phases {
+	for phi, ph := range phases {
 		if stop {
 			break
 		}
@@ -871,6 +928,21 @@ func c15Enumerate(b c15Bounds, emit func(sp c15Spec) bool) {
 			}
 			rec(size-1, res, false, 0)
 		}
+		if phi == 0 && !stop && b.Families {
+			// the template families come right after the functions without statements
+			for _, sp := range c15Families() {
+				sp.Pkg = []string{"lib", "client"}[n%2]
+				sp.Name = fmt.Sprintf("F%d", n)
+				n++
+				if !emit(sp) {
+					stop = true
+					break
+				}
+			}
+			if stop {
+				break
+			}
+		}
 	}
 }
 
@@ -878,7 +950,180 @@ func c15Bound(thorough bool) c15Bounds {
 	all := []int{kP, kQ, kPP, kS, kNS, kM, kC, kF, kA, kI, kU, kX}
 	pairs := [][2]int{{kP, kA}, {kA, kP}, {kS, kI}, {kI, kM}}
 	if thorough {
-		return c15Bounds{MaxStmts: 4, TierBySize: []int{3, 3, 2, 1, 0}, PairTier: []int{3, 3, 1, 0, -1}, ResSingle: all, ResPairs: pairs, ShapesUpTo: 2, ShapeTier: 1}
+		return c15Bounds{MaxStmts: 4, TierBySize: []int{3, 3, 2, 1, 0}, PairTier: []int{3, 3, 1, 0, -1}, ResSingle: all, ResPairs: pairs, ShapesUpTo: 2, ShapeTier: 1, Families: true}
 	}
-	return c15Bounds{MaxStmts: 3, TierBySize: []int{3, 3, 1, 0}, PairTier: []int{3, 3, 0, -1}, ResSingle: all, ResPairs: pairs, ShapesUpTo: 1, ShapeTier: 1}
+	return c15Bounds{MaxStmts: 3, TierBySize: []int{3, 3, 1, 0}, PairTier: []int{3, 3, 0, -1}, ResSingle: all, ResPairs: pairs, ShapesUpTo: 1, ShapeTier: 1, Families: true}
+}
+
+// ---------------------------------------------------------------------------------------------
+// template families (regions outside the statement alphabet), each enumerated completely
+
+// c15Families returns the members of all families in a fixed order (Name and Pkg are assigned by
+// the enumeration; BothPkgs marks members that are emitted in both packages).
+func c15Families() []c15Spec {
+	var out []c15Spec
+	add := func(fam, id string, res []int, params []int, kmax int, glob bool, restypes []string, body string) {
+		if strings.ContainsAny(id, " \t\n") {
+			panic("family id with space: " + id)
+		}
+		out = append(out, c15Spec{Res: res, Raw: &c15Raw{Family: fam, ID: id, Params: params, KMax: kmax, Glob: glob, ResTypes: restypes, Body: body}})
+	}
+	one := func(k int) []int { return []int{k} }
+	nosp := func(s string) string {
+		s = strings.ReplaceAll(s, "§", "")
+		s = strings.ReplaceAll(s, "\n", ";")
+		return strings.ReplaceAll(strings.ReplaceAll(s, " ", ""), "\t", "")
+	}
+
+	// --- ret: a refinement of v inside one return block, v returned unrefined by another one.
+	// stmt refines v; expr (optional) is an expression over v that refines it, returned as `any`.
+	type refiner struct {
+		v          int
+		stmt, expr string
+	}
+	refs := []refiner{
+		{kP, "_ = p.X", "p.X"}, {kP, "p.X = 1", ""}, {kPP, "_ = *pp", "*pp"}, {kPP, "*pp = nil", ""}, {kQ, "_ = q.X", "q.X"},
+		{kS, "_ = s[0]", "s[0]"}, {kS, "_ = s[:1]", "s[:1]"}, {kNS, "_ = ns[0]", "ns[0]"}, {kM, "m[1] = nil", ""},
+		{kF, "f()", "f()"}, {kA, "_ = a.(*§T)", "a.(*§T)"}, {kA, "_ = a.(§Iface)", "a.(§Iface)"}, {kI, "_ = i.(*§T)", "i.(*§T)"},
+		{kI, "_ = i.Get()", "i.Get()"}, {kU, "_ = *(*int)(u)", "*(*int)(u)"}, {kX, "_ = *x", ""},
+	}
+	for _, r := range refs {
+		v := c15Var[r.v]
+		id := nosp(r.stmt)
+		// the same kind is returned
+		add("ret", "if(k==1){"+id+";ret};ret", one(r.v), one(r.v), 2, false, nil,
+			"if k == 1 {\n\t"+r.stmt+"\n\treturn "+v+"\n}\nreturn "+v)
+		add("ret", "if(k!=1){ret};"+id+";ret", one(r.v), one(r.v), 2, false, nil,
+			"if k != 1 {\n\treturn "+v+"\n}\n"+r.stmt+"\nreturn "+v)
+		add("ret", "switch(k){1:"+id+";ret;2:ret};ret", one(r.v), one(r.v), 3, false, nil,
+			"switch k {\ncase 1:\n\t"+r.stmt+"\n\treturn "+v+"\ncase 2:\n\treturn "+v+"\n}\nreturn "+v)
+		if !c15IsIface(r.v) && r.v != kX {
+			// v boxed into an interface result: Inner is at stake
+			add("ret", "any:if(k==1){"+id+";ret};ret", one(kA), one(r.v), 2, false, nil,
+				"if k == 1 {\n\t"+r.stmt+"\n\treturn "+v+"\n}\nreturn "+v)
+		}
+		if r.expr != "" {
+			res := kA
+			if r.v == kI {
+				res = kI
+				if !strings.Contains(r.expr, "(*§T)") && !strings.Contains(r.expr, "Get") {
+					continue
+				}
+			}
+			add("ret", "if(k==1){ret("+nosp(r.expr)+")};ret", one(res), one(r.v), 2, false, nil,
+				"if k == 1 {\n\treturn "+r.expr+"\n}\nreturn "+v)
+			add("ret", "if(k!=1){ret};ret("+nosp(r.expr)+")", one(res), one(r.v), 2, false, nil,
+				"if k != 1 {\n\treturn "+v+"\n}\nreturn "+r.expr)
+		}
+	}
+
+	// --- conv: conversions whose operand is not pointer-like
+	add("conv", "unsafe.Pointer(w)", one(kU), one(kW), 0, false, nil, "return unsafe.Pointer(w)")
+	add("conv", "u:=unsafe.Pointer(w);ret", one(kU), one(kW), 0, false, nil, "u := unsafe.Pointer(w)\nreturn u")
+	add("conv", "(*T)(unsafe.Pointer(w))", one(kP), one(kW), 0, false, nil, "return (*§T)(unsafe.Pointer(w))")
+	add("conv", "any(unsafe.Pointer(w))", one(kA), one(kW), 0, false, nil, "return unsafe.Pointer(w)")
+	add("conv", "if(k==1){u=nil}", one(kU), one(kW), 2, false, nil, "u := unsafe.Pointer(w)\nif k == 1 {\n\tu = nil\n}\nreturn u")
+	add("conv", "if(k==1){u=fresh}", one(kU), one(kW), 2, false, nil, "u := unsafe.Pointer(w)\nif k == 1 {\n\tu = unsafe.Pointer(&§T{})\n}\nreturn u")
+	add("conv", "unsafe.Pointer(uintptr(0))", one(kU), nil, 0, false, nil, "return unsafe.Pointer(uintptr(0))")
+	add("conv", "unsafe.Pointer(w+0)", one(kU), one(kW), 0, false, nil, "return unsafe.Pointer(w + 0)")
+	add("conv", "unsafe.Pointer(uintptr(u))", one(kU), one(kU), 0, false, nil, "return unsafe.Pointer(uintptr(u))")
+	add("conv", "[]byte(z)", one(kB), one(kZ), 0, false, nil, "return []byte(z)")
+	add("conv", "[]rune(z)", one(kB), one(kZ), 0, false, []string{"[]rune"}, "return []rune(z)")
+	add("conv", "BS(z)", one(kB), one(kZ), 0, false, []string{"§BS"}, "return §BS(z)")
+	add("conv", "[]byte(ZS(z))", one(kB), one(kZ), 0, false, nil, "return []byte(§ZS(z))")
+	add("conv", "any([]byte(z))", one(kA), one(kZ), 0, false, nil, "return []byte(z)")
+	add("conv", "[]byte(\"\")", one(kB), nil, 0, false, nil, "return []byte(\"\")")
+	add("conv", "[]byte(z)[:0]", one(kB), one(kZ), 0, false, nil, "return []byte(z)[:0]")
+	add("conv", "append([]byte(z))", one(kB), one(kZ), 0, false, nil, "return append([]byte(z))")
+	add("conv", "if(k==1){bs=nil}", one(kB), one(kZ), 2, false, nil, "bs := []byte(z)\nif k == 1 {\n\tbs = nil\n}\nreturn bs")
+
+	// --- obj: functions, method values, closures and addresses of package-level variables stored
+	// into interfaces and typed results, with an earlier use of the same object and allocations
+	// in between
+	type obj struct {
+		id, expr string
+		typed    int      // kind of the typed result (-1: only `any`)
+		restype  []string // override
+		params   []int
+	}
+	objs := []obj{
+		{"G", "§G", kF, nil, nil}, {"G2", "§G2", kF, nil, nil},
+		{"p.Get", "p.Get", kF, nil, one(kP)}, {"(*T).Get", "(*§T).Get", kF, []string{"func(*§T) *§T"}, nil},
+		{"func(){nil}", "func() *§T { return nil }", kF, nil, nil}, {"func(){p}", "func() *§T { return p }", kF, nil, one(kP)},
+		{"&GP", "&§GP", kPP, nil, nil}, {"unsafe.Pointer(&GP)", "unsafe.Pointer(&§GP)", kU, nil, nil},
+		{"&Anchor", "&§Anchor", kP, nil, nil}, {"Anchor.Get", "§Anchor.Get", kF, nil, nil},
+	}
+	for _, o := range objs {
+		for _, boxed := range []bool{true, false} {
+			res, rt := one(kA), []string(nil)
+			if !boxed {
+				res, rt = one(o.typed), o.restype
+			}
+			resT := "any"
+			if !boxed {
+				resT = c15Type[o.typed]
+				if rt != nil {
+					resT = rt[0]
+				}
+			}
+			for _, touch := range []string{"", "var t any = " + o.expr + "\n_ = t\n", "t := " + o.expr + "\n_ = t\n"} {
+				for _, alloc := range []string{"", "y := new(int)\n_ = y\n"} {
+					tid := map[string]string{"": ""}[touch]
+					if touch != "" {
+						tid = "touch;"
+						if strings.HasPrefix(touch, "t :=") {
+							tid = "touchtyped;"
+						}
+					}
+					if alloc != "" {
+						tid += "alloc;"
+					}
+					pre := "res=" + map[bool]string{true: "any", false: "typed"}[boxed] + ";" + tid
+					add("obj", o.id+"|"+pre+"if(k==1){ret(nil)};ret(obj)", res, o.params, 2, true, rt,
+						touch+alloc+"if k == 1 {\n\treturn nil\n}\nreturn "+o.expr)
+					add("obj", o.id+"|"+pre+"r=nil;if(k==1){r=obj};ret(r)", res, o.params, 2, true, rt,
+						"var r "+resT+"\n"+touch+alloc+"if k == 1 {\n\tr = "+o.expr+"\n}\nreturn r")
+					add("obj", o.id+"|"+pre+"ret(obj)", res, o.params, 0, true, rt,
+						touch+alloc+"return "+o.expr)
+				}
+			}
+		}
+	}
+
+	// --- loop: parallel assignments between 2 or 3 variables of one kind inside a loop that runs
+	// 0..3 times
+	inits := func(k int) []string { return []string{c15Fresh[k], "nil", c15Var[k]} }
+	initID := []string{"fresh", "nil", "param"}
+	for _, k := range []int{kP, kA, kS} {
+		in := inits(k)
+		typ := c15Type[k]
+		maps := [][2]int{{1, 0}, {1, 1}, {0, 0}} // (v0, v1) = (v[m0], v[m1]), identity excluded
+		for i0 := range in {
+			for i1 := range in {
+				for _, m := range maps {
+					for ret := 0; ret < 2; ret++ {
+						id := fmt.Sprintf("v0=%s;v1=%s;loop{v0,v1=v%d,v%d};ret(v%d)", initID[i0], initID[i1], m[0], m[1], ret)
+						body := fmt.Sprintf("var v0 %s = %s\nvar v1 %s = %s\n_, _ = v0, v1\nfor j := 0; j < k; j++ {\n\tv0, v1 = v%d, v%d\n}\nreturn v%d", typ, in[i0], typ, in[i1], m[0], m[1], ret)
+						add("loop", id, one(k), one(k), 3, false, nil, body)
+					}
+				}
+			}
+		}
+	}
+	perms := [][3]int{{1, 2, 0}, {2, 0, 1}, {1, 0, 2}, {0, 2, 1}, {2, 1, 0}}
+	in := inits(kP)
+	for i0 := range in {
+		for i1 := range in {
+			for i2 := range in {
+				for _, m := range perms {
+					for ret := 0; ret < 3; ret++ {
+						id := fmt.Sprintf("v0=%s;v1=%s;v2=%s;loop{v0,v1,v2=v%d,v%d,v%d};ret(v%d)", initID[i0], initID[i1], initID[i2], m[0], m[1], m[2], ret)
+						body := fmt.Sprintf("var v0 *§T = %s\nvar v1 *§T = %s\nvar v2 *§T = %s\n_, _, _ = v0, v1, v2\nfor j := 0; j < k; j++ {\n\tv0, v1, v2 = v%d, v%d, v%d\n}\nreturn v%d", in[i0], in[i1], in[i2], m[0], m[1], m[2], ret)
+						add("loop", id, one(kP), one(kP), 3, false, nil, body)
+					}
+				}
+			}
+		}
+	}
+	return out
 }
